@@ -316,6 +316,7 @@ def main(tier, replay=None):
         cnt["artifact written"] += bool(c["expect"][0]["disk"])
         cnt["same file twice"] += len(set(c["ord"])) < len(c["ord"])
     B.require_nonvacuous("c16", cnt)
+    B.binding_demo(jobs)
     results = B.pool_map(run_case, jobs, workers=8)
     by_nf = {}
     nontriv = set()
@@ -326,7 +327,7 @@ def main(tier, replay=None):
         procs += case["repeat"] + len(set(case["ord"]))
         if res["ok"] or res["fired"]:
             for c2, evs, crashed in res["events"]:
-                if not crashed:
+                if not crashed and not ({"RawPathKeys", "PushAfterCompletion"} & set(res["fired"])):
                     by_nf.setdefault(case["nf"], []).append((c2, evs))
         if not res["ok"]:
             if res["fired"]:
